@@ -242,7 +242,7 @@ Proof.
   - destruct (mn >? mx) eqn:E1; [discriminate|].
     destruct ((v <? mn) || (v >? mx)); [discriminate|].
     destruct (_ && (dmn >? dmx)); [discriminate|].
-    unfold guard_width. destruct (fix_C20_1 && _); [discriminate|].
+    unfold guard_width, guard_width_gen. destruct (fix_C20_1 && _); [discriminate|].
     destruct (int63n _ t) as [r t1| | |]; cbn; try discriminate.
     intros H; inversion H; subst. destruct d0; cbn in *; try tauto.
     destruct Hl as (-> & -> & -> & ->). split; [tauto|]. apply clampZ_range. zb. lia.
@@ -261,7 +261,7 @@ Proof.
   - destruct (mn >? mx) eqn:E1; [discriminate|].
     destruct ((v <? mn) || (v >? mx)); [discriminate|].
     destruct (_ && (dmn >? dmx)); [discriminate|].
-    unfold guard_width. destruct (fix_C20_1 && _); [discriminate|].
+    unfold guard_width, guard_width_gen. destruct (fix_C20_1 && _); [discriminate|].
     destruct (int63n _ t) as [r t1| | |]; cbn; try discriminate.
     intros H; inversion H; subst. destruct d0; cbn in *; try tauto.
     destruct Hl as (-> & -> & -> & ->). split; [tauto|]. apply clampZ_range. zb. lia.
@@ -420,27 +420,78 @@ Proof.
   rewrite Z.mod_small; lia.
 Qed.
 
-Lemma update_ts_spec ts dmin dmax t ts' t' :
-  dmax <= max_i64 ->
-  update_ts ts dmin dmax t = RV ts' t' ->
-  0 <= ts /\ 0 <= dmin <= dmax /\
-  exists r, 0 <= r <= dmax - dmin /\ ts' = wrap64 (ts + r + dmin).
+Lemma wrap64_range z : min_i64 <= wrap64 z <= max_i64.
 Proof.
-  intros Hmax. unfold update_ts.
+  unfold wrap64, min_i64, max_i64, two63, two64.
+  pose proof (Z.mod_pos_bound (z + 9223372036854775808) 18446744073709551616). lia.
+Qed.
+
+Lemma wrap64_high z : max_i64 < z < two64 -> wrap64 z = z - two64.
+Proof.
+  unfold wrap64, max_i64, two63, two64. intros H.
+  replace (z + 9223372036854775808)
+    with ((z + 9223372036854775808 - 18446744073709551616) + 1 * 18446744073709551616) by lia.
+  rewrite Z_mod_plus_full, Z.mod_small; lia.
+Qed.
+
+Lemma update_ts_gen_spec f1 f2 ts dmin dmax t ts' t' :
+  dmax <= max_i64 ->
+  update_ts_gen f1 f2 ts dmin dmax t = RV ts' t' ->
+  0 <= ts /\ 0 <= dmin <= dmax /\
+  exists r, 0 <= r <= dmax - dmin /\ ts' = wrap64 (ts + r + dmin) /\ (f2 = true -> ts <= ts').
+Proof.
+  intros Hmax. unfold update_ts_gen.
   destruct (ts <? 0) eqn:E1; [discriminate|].
   destruct ((dmin >? dmax) || (dmin <? 0)) eqn:E2; [discriminate|].
-  unfold guard_width. destruct (fix_C20_1 && _); [discriminate|].
+  unfold guard_width_gen. destruct (f1 && _); [discriminate|].
   destruct (int63n (wrap64 (dmax - dmin + 1)) t) as [r t1| | |] eqn:Er; cbn [rbind]; try discriminate.
-  cbv zeta. destruct (fix_C20_2 && _); [discriminate|].
+  cbv zeta. destruct (f2 && _) eqn:E3; [discriminate|].
   intros H. assert (Hts : ts' = wrap64 (ts + r + dmin)) by congruence. clear H.
   zb. apply int63n_range in Er.
   assert (Hw : dmax - dmin + 1 <= max_i64 \/ dmax - dmin + 1 = two63)
     by (unfold max_i64, two63 in *; lia).
   destruct Hw as [Hw|Hw].
   - rewrite wrap64_id in Er by (unfold min_i64, max_i64 in *; lia).
-    repeat split; try lia. exists r. split; [lia|assumption].
+    repeat split; try lia. exists r. split; [lia|]. split; [assumption|].
+    intros ->. cbn in E3. zb. lia.
   - rewrite Hw in Er. exfalso. revert Er. unfold wrap64, two63, two64.
     change ((9223372036854775808 + 9223372036854775808) mod 18446744073709551616) with 0. lia.
+Qed.
+
+Lemma update_ts_spec ts dmin dmax t ts' t' :
+  dmax <= max_i64 ->
+  update_ts ts dmin dmax t = RV ts' t' ->
+  0 <= ts /\ 0 <= dmin <= dmax /\
+  exists r, 0 <= r <= dmax - dmin /\ ts' = wrap64 (ts + r + dmin).
+Proof.
+  intros Hmax H. destruct (update_ts_gen_spec _ _ _ _ _ _ _ _ Hmax H) as (H0 & H1 & r & Hr & Hts & _).
+  eauto 6.
+Qed.
+
+(** C20_2 repaired: a successful timestamp update never goes back *)
+Lemma update_ts_gen_mono f1 ts dmin dmax t ts' t' :
+  update_ts_gen f1 true ts dmin dmax t = RV ts' t' -> ts <= ts'.
+Proof.
+  unfold update_ts_gen.
+  destruct (ts <? 0); [discriminate|]. destruct ((dmin >? dmax) || (dmin <? 0)); [discriminate|].
+  unfold guard_width_gen. destruct (f1 && _); [discriminate|].
+  destruct (int63n _ t) as [r t1| | |]; cbn [rbind]; try discriminate.
+  cbv zeta. cbn [andb]. destruct (wrap64 (ts + r + dmin) <? ts) eqn:E; [discriminate|].
+  intros H. assert (ts' = wrap64 (ts + r + dmin)) by congruence. zb. lia.
+Qed.
+
+(** ... and with int64 fields it stays within the delta bounds *)
+Lemma update_ts_gen_step f1 ts dmin dmax t ts' t' :
+  ts <= max_i64 -> dmax <= max_i64 ->
+  update_ts_gen f1 true ts dmin dmax t = RV ts' t' ->
+  0 <= dmin /\ dmin <= ts' - ts <= dmax.
+Proof.
+  intros Hts Hmax H. pose proof (update_ts_gen_mono _ _ _ _ _ _ _ H) as Hmono.
+  destruct (update_ts_gen_spec _ _ _ _ _ _ _ _ Hmax H) as (H0 & H1 & r & Hr & Heq & _).
+  destruct (Z_le_gt_dec (ts + r + dmin) max_i64) as [Hle|Hgt].
+  - rewrite wrap64_id in Heq by (unfold min_i64, max_i64 in *; lia). lia.
+  - exfalso. rewrite wrap64_high in Heq by (unfold max_i64, two64 in *; lia).
+    unfold max_i64, two64 in *. lia.
 Qed.
 
 Lemma next_value_none v g g' : next_value v g = RV None g' -> vrep v = 1 /\ g' = g.
@@ -693,7 +744,7 @@ Qed.
 Lemma update_ts_nonneg ts dmin dmax t ts' t' :
   update_ts ts dmin dmax t = RV ts' t' -> 0 <= ts.
 Proof.
-  unfold update_ts. destruct (ts <? 0) eqn:E1; [discriminate|]. zb. auto.
+  unfold update_ts, update_ts_gen. destruct (ts <? 0) eqn:E1; [discriminate|]. zb. auto.
 Qed.
 
 Theorem next_value_ts_step' v g v' g' :
